@@ -209,7 +209,9 @@ def check(case):
     if os.path.exists(FNAME):
         os.remove(FNAME)
     try:
-        return _check(spec, res, nontrivial, om)
+        out = _check(spec, res, nontrivial, om)
+        out.classes = list(dict.fromkeys(out.classes))
+        return out
     finally:
         for fn in (FNAME, FNAME + '-journal'):
             if os.path.exists(fn):
